@@ -1,6 +1,6 @@
 PROPERTY = "C18"
 LEVEL = "proof"
-FUNCTIONS = ["canonicalize_name", "normalize_slashes", "is_filename_sane", "mknode (call site: hard-link target)"]
+FUNCTIONS = ["canonicalize_name", "normalize_slashes", "is_filename_sane", "mknode (call site: hard-link target)", "it_next (call site: tar member name)"]
 TRUSTED = ["CBMC library model of strcmp (used by is_filename_sane)",
            "malloc never returns overlapping objects (CBMC memory model)"]
 ASSUMPTIONS = [
@@ -35,6 +35,10 @@ HARNESSES = [
     dict(name="funnel_mknode", file="funnel_mknode.c",
          label="bounded(name length 2, target length 4)", unwind=8, timeout=300,
          cases=[dict(id="n2e4", defines={"NAME_LEN": 2, "EXTRA_LEN": 4}, tier="quick")]),
+    dict(name="funnel_tar_next", file="funnel_tar_next.c",
+         label="bounded(headers per call <= 3)", unwind=5, timeout=300,
+         nochecks=["--conversion-check"],
+         cases=[dict(id="hdr3", defines={"MAX_HDR": 3}, tier="quick")]),
     dict(name="sane_iff", file="sane_iff.c", label="bounded(len<=12)",
          timeout=900,
          cases=[dict(id="len%d" % n, defines={"LEN": n}, tier="quick", unwind=n + 3)
